@@ -367,7 +367,10 @@ def _case_worker(task):
             else:
                 r["err"] = m
             return r
-        g = L.Gen(rng, dict(FEAT))
+        feat = dict(FEAT)
+        if rng.random() < 0.25:
+            feat["newer_only_in_funcs"] = True
+        g = L.Gen(rng, feat)
         spec = g.gen_spec()
         r = {"mode": mode, "spec": spec, "stats": L.spec_stats(spec)}
         r.update(judge(spec, rng))
@@ -391,6 +394,37 @@ def _calls_in_bodies(stmts, inside):
 
 
 HAND_SPECS = [
+    # a newer opset version required ONLY inside a function body (called outside the If) + a v17 Split inside an If
+    # branch: the branch has to be adapted against the model's opset 19 (Split 18 needs `num_outputs`)
+    {"args": ["f", "b"], "inputs": [["x", 0], ["c", 1]],
+     "stmts": [["call", 0, [0]],
+               ["if", 1, {"stmts": [["op", "split0", 17, [0]]], "outs": [3]}, {"stmts": [], "outs": [0]}, 17],
+               ["op", "add", 17, [2, 3]]],
+     "outputs": [["y", 4]], "drop": False,
+     "funcs": [{"name": "newer", "domain": "dom", "nin": 1, "nout": 1,
+                "body": {"stmts": [["op", "identity", 19, [0]]], "outs": [1]}}],
+     "models": []},
+    # an old and a new revision of one helper (declared versions 1 and 2, different bodies), the old one reached
+    # only through another function: must raise, never "newest wins"
+    {"args": ["f"], "inputs": [["x", 0]],
+     "stmts": [["call", 0, [0]], ["call", 2, [1]], ["op", "add", 17, [1, 2]]],
+     "outputs": [["y", 3]], "drop": False,
+     "funcs": [{"name": "helper", "domain": "dom", "version": 2, "nin": 1, "nout": 1,
+                "body": {"stmts": [["op", "abs", 17, [0]]], "outs": [1]}},
+               {"name": "helper", "domain": "dom", "version": 1, "nin": 1, "nout": 1,
+                "body": {"stmts": [["op", "neg", 17, [0]]], "outs": [1]}},
+               {"name": "wrap", "domain": "dom", "nin": 1, "nout": 1,
+                "body": {"stmts": [["call", 1, [0]]], "outs": [1]}}],
+     "models": []},
+    # ... the same body under both declared versions: one definition, legitimately shared
+    {"args": ["f"], "inputs": [["x", 0]],
+     "stmts": [["call", 0, [0]], ["call", 1, [1]]],
+     "outputs": [["y", 2]], "drop": False,
+     "funcs": [{"name": "helper", "domain": "dom", "version": 2, "nin": 1, "nout": 1,
+                "body": {"stmts": [["op", "abs", 17, [0]]], "outs": [1]}},
+               {"name": "helper", "domain": "dom", "version": 1, "nin": 1, "nout": 1,
+                "body": {"stmts": [["op", "abs", 17, [0]]], "outs": [1]}}],
+     "models": []},
     # function used only inside an If body (pinned-tree defect)
     {"args": ["f", "b"], "inputs": [["x", 0], ["c", 1]],
      "stmts": [["if", 1, {"stmts": [["call", 0, [0, 0]]], "outs": [2]}, {"stmts": [], "outs": [0]}, 17]],
